@@ -7,6 +7,7 @@ mod conn;
 mod emit;
 mod gen;
 mod rng;
+mod replay;
 mod show;
 mod srv;
 mod sstream;
@@ -25,7 +26,7 @@ fn main() {
     let mut seed: u64 = 1;
     let mut tier = "quick".to_string();
     let mut out = "/verif/work/tmp".to_string();
-    let mut i = 2;
+    let mut i = if suite == "replay" { 3 } else { 2 };
     while i + 1 < args.len() {
         match args[i].as_str() {
             "--seed" => seed = args[i + 1].parse().unwrap_or(1),
@@ -36,6 +37,46 @@ fn main() {
         i += 2;
     }
     let thorough = tier == "thorough";
+    let mut prop = String::from("C03");
+    for k in 2..args.len().saturating_sub(1) {
+        if args[k] == "--prop" {
+            prop = args[k + 1].clone();
+        }
+    }
+    // watchdog: if no op completes for 40 s the code under test hangs (loops forever / blocks): report the case
+    // in progress as a violation of the property being checked and stop.
+    {
+        let out_dir = out.clone();
+        let prop = prop.clone();
+        std::thread::spawn(move || {
+            use std::sync::atomic::Ordering;
+            let mut last = emit::PROGRESS.load(Ordering::Relaxed);
+            let mut idle = 0;
+            loop {
+                std::thread::sleep(std::time::Duration::from_secs(2));
+                let now = emit::PROGRESS.load(Ordering::Relaxed);
+                if now == last {
+                    idle += 2;
+                } else {
+                    idle = 0;
+                    last = now;
+                }
+                if idle >= 40 {
+                    let case = emit::CURRENT_CASE.lock().map(|c| c.clone()).unwrap_or_default();
+                    let esc = |s: &str| s.replace('\\', "\\\\").replace('"', "\\\"");
+                    let lines: Vec<String> = case.iter().map(|l| format!("\"{}\"", esc(l))).collect();
+                    let entry = format!(
+                        "{{\"property\":\"{}\",\"case\":0,\"what\":\"HANG: no operation completed for 40 s — the call in progress loops forever or blocks\",\"replay\":[{}]}}\n",
+                        prop,
+                        lines.join(",")
+                    );
+                    let _ = std::fs::write(format!("{}/hang.jsonl", out_dir), entry);
+                    eprintln!("watchdog: hang detected");
+                    std::process::exit(3);
+                }
+            }
+        });
+    }
     // panics are caught per call by the suites; keep the default hook quiet
     std::panic::set_hook(Box::new(|info| {
         // panics of the code under test are caught per call and reported as oracle failures;
@@ -47,6 +88,13 @@ fn main() {
     }));
     let mut rec = Rec::new(&out);
     let mut rng = Rng::new(seed);
+    if suite == "replay" {
+        // mhharness replay <ops-file> --out DIR
+        let file = args.get(2).cloned().unwrap_or_default();
+        replay::run(&mut rec, &file);
+        rec.finish(&[("suite", suite), ("tier", tier), ("seed", seed.to_string())]);
+        return;
+    }
     match suite.as_str() {
         "tokens" => suites::tokens::run(&mut rec, &mut rng, thorough),
         "headers" => suites::headers::run(&mut rec, &mut rng, thorough),
